@@ -20,6 +20,13 @@ fragment (nothing is executed):
     _interpolate_molgrid_helper
         func_vals * molgrid.aim_weights, indices[i] : indices[i + 1], the sum of the atomic
         interpolants                                                   -> molWeighted, molSliceStart/End, molSum
+    interpolate_laplacian
+        the store guard, func_vals * molgrid.aim_weights, indices[i] : indices[i + 1]    -> lapRequiresStore, lapWeighted, lapSliceStart/End
+        cutoff defaults, `if np.any(r_pts < cutoff): r_pts[r_pts < cutoff] = cutoff`     -> lapCutoffDefault, lapCutOffDefault, lapClamp
+        spline(r_pts[, k]) lists, the three einsum contractions and their updates         -> lapFirst/Second/Third{Order,Weighted,Einsum}, lapFirst/Second/Third
+        degrees = np.hstack([[x*(x+1)]*(2*x+1) for x in np.arange(0, l_max//2+1)])        -> lapDegrees
+        return first + second - third, output += interpolate(points, cut_off)             -> lapReturn, lapSumStep
+        closure binding of the stored lambda (free loop-assigned names are late-bound)     -> lapSliceOwner, lapGridOwner
     robust_poisson._build_core_density, solve_poisson_robust
         prefactor / rho += …, residual -= core, v_core += coulomb_potential(…normalized=True),
         return v_core + v_bonding + v_residual, the solve_poisson_bvp call
@@ -248,6 +255,25 @@ def _boundary_def(fn, src, lean_name, doc):
             f"def {lean_name} (integral y00 : K) : K := {ex.e(b.value)}\n"]
 
 
+def _iexpr(n, names, gridname="atomgrid"):
+    """Integer expression (loop bounds, m_ord / degree comprehensions) -> Lean `Int` text."""
+    if isinstance(n, ast.Constant) and isinstance(n.value, int) and not isinstance(n.value, bool):
+        return f"({n.value} : Int)"
+    if isinstance(n, ast.Name) and n.id in names:
+        return names[n.id]
+    if isinstance(n, ast.Attribute) and n.attr == "l_max" and _is_name(n.value, gridname):
+        return "(l_max : Int)"
+    if isinstance(n, ast.UnaryOp) and isinstance(n.op, ast.USub):
+        return f"(-{_iexpr(n.operand, names, gridname)})"
+    if isinstance(n, ast.BinOp):
+        ops = {ast.Add: "+", ast.Sub: "-", ast.Mult: "*", ast.FloorDiv: "/"}  # Int `/` floors for a positive divisor
+        if type(n.op) in ops:
+            if isinstance(n.op, ast.FloorDiv) and not (isinstance(n.right, ast.Constant) and isinstance(n.right.value, int) and n.right.value > 0):
+                raise Unsupported("floor division by a non-literal")
+            return f"({_iexpr(n.left, names, gridname)} {ops[type(n.op)]} {_iexpr(n.right, names, gridname)})"
+    raise Unsupported("integer expression " + ast.dump(n)[:120])
+
+
 def _loops(fn, src):
     """for l_deg in range(a, atomgrid.l_max // 2 + 1): for m_ord in [comp] + [comp]"""
     loops = [n for n in ast.walk(fn) if isinstance(n, ast.For) and _is_name(n.target, "l_deg")]
@@ -258,22 +284,7 @@ def _loops(fn, src):
     if not (isinstance(it, ast.Call) and _is_name(it.func, "range") and len(it.args) == 2):
         raise Unsupported("l_deg range")
 
-    def iexpr(n, names):
-        if isinstance(n, ast.Constant) and isinstance(n.value, int) and not isinstance(n.value, bool):
-            return f"({n.value} : Int)"
-        if isinstance(n, ast.Name) and n.id in names:
-            return names[n.id]
-        if isinstance(n, ast.Attribute) and n.attr == "l_max" and _is_name(n.value, "atomgrid"):
-            return "(l_max : Int)"
-        if isinstance(n, ast.UnaryOp) and isinstance(n.op, ast.USub):
-            return f"(-{iexpr(n.operand, names)})"
-        if isinstance(n, ast.BinOp):
-            ops = {ast.Add: "+", ast.Sub: "-", ast.Mult: "*", ast.FloorDiv: "/"}  # Int `/` floors for a positive divisor
-            if type(n.op) in ops:
-                if isinstance(n.op, ast.FloorDiv) and not (isinstance(n.right, ast.Constant) and isinstance(n.right.value, int) and n.right.value > 0):
-                    raise Unsupported("floor division by a non-literal")
-                return f"({iexpr(n.left, names)} {ops[type(n.op)]} {iexpr(n.right, names)})"
-        raise Unsupported("integer expression " + ast.dump(n)[:120])
+    iexpr = _iexpr
 
     lstart, lstop = iexpr(it.args[0], {}), iexpr(it.args[1], {})
     inner = [s for s in lo.body if isinstance(s, ast.For)]
@@ -758,11 +769,316 @@ def _robust(tree, src) -> list[str]:
     return P
 
 
+# ----------------------------------------------------------------------------------------------
+# interpolate_laplacian
+# ----------------------------------------------------------------------------------------------
+def _norm_einsum(text: str) -> str:
+    return "".join(text.split())
+
+
+def _free_names(node, bound: set[str]) -> set[str]:
+    return {n.id for n in ast.walk(node) if isinstance(n, ast.Name) and isinstance(n.ctx, ast.Load) and n.id not in bound}
+
+
+def _lap(tree, src) -> list[str]:
+    """interpolate_laplacian: molecular fan-out, clamp, derivative orders, three components, degrees, return."""
+    fn = _fn(tree, "interpolate_laplacian")
+    P: list[str] = []
+    if [a.arg for a in fn.args.args] != ["molgrid", "func_vals"] or fn.args.defaults:
+        raise Unsupported("interpolate_laplacian parameters")
+    body = _strip_doc(fn.body)
+    # -- store guard -------------------------------------------------------------------------
+    guards = [st for st in body if isinstance(st, ast.If) and ast.get_source_segment(src, st.test) == "molgrid.atgrids is None"]
+    if len(guards) != 1 or len(guards[0].body) != 1 or not (isinstance(guards[0].body[0], ast.Raise) and isinstance(guards[0].body[0].exc, ast.Call)
+                                                          and _is_name(guards[0].body[0].exc.func, "ValueError")) or guards[0].orelse:
+        raise Unsupported("interpolate_laplacian: `if molgrid.atgrids is None: raise ValueError` guard")
+    P.append("/-- `if molgrid.atgrids is None: raise ValueError(...)`: a molecular grid built with `store=False` is rejected. -/")
+    P.append("def lapRequiresStore : Bool := true\n")
+    # -- the AtomGrid -> one-atom MolGrid wrap ---------------------------------------------------
+    wraps = [st for st in body if isinstance(st, ast.If) and ast.get_source_segment(src, st.test) == "isinstance(molgrid, AtomGrid)"]
+    if len(wraps) != 1 or len(wraps[0].body) != 1 or wraps[0].orelse:
+        raise Unsupported("interpolate_laplacian: AtomGrid wrap")
+    wa = wraps[0].body[0]
+    if not (isinstance(wa, ast.Assign) and _is_name(wa.targets[0], "molgrid") and isinstance(wa.value, ast.Call) and _is_name(wa.value.func, "MolGrid")):
+        raise Unsupported("interpolate_laplacian: AtomGrid wrap is not molgrid = MolGrid(...)")
+    wkw = {k.arg: ast.get_source_segment(src, k.value) for k in wa.value.keywords}
+    if wa.value.args or set(wkw) != {"atnums", "atgrids", "aim_weights", "store"}:
+        raise Unsupported("interpolate_laplacian: MolGrid(...) keywords of the AtomGrid wrap")
+    P.append("/-- an `AtomGrid` argument is wrapped as `MolGrid(" + ", ".join(f"{k}={v}" for k, v in sorted(wkw.items())) + ")`. -/")
+    P.append(f"def lapAtomWrap : List (String × String) := [{', '.join('(' + _strs([k])[1:-1] + ', ' + _strs([v])[1:-1] + ')' for k, v in sorted(wkw.items()))}]\n")
+    # -- w_A * f ---------------------------------------------------------------------------------
+    a = _one_assign(fn, "func_vals_atom")
+
+    def watom(n):
+        if _is_name(n, "func_vals"):
+            return "f"
+        if isinstance(n, ast.Attribute) and n.attr == "aim_weights" and _is_name(n.value, "molgrid"):
+            return "w"
+        return None
+
+    P.append(f"/-- `{ast.get_source_segment(src, a)}`, per grid point. -/")
+    P.append(f"def lapWeighted (f w : K) : K := {Ex(src, {}, watom).e(a.value)}\n")
+    loops = [st for st in body if isinstance(st, ast.For) and _is_name(st.target, "i")]
+    if len(loops) != 1 or ast.get_source_segment(src, loops[0].iter) != "range(len(molgrid.atcoords))":
+        raise Unsupported("interpolate_laplacian: atom loop")
+    loop = loops[0]
+
+    def idx(name):
+        cands = [st for st in loop.body if isinstance(st, ast.Assign) and _is_name(st.targets[0], name)]
+        if len(cands) != 1:
+            raise Unsupported(f"interpolate_laplacian: {name}")
+        v = cands[0].value
+        if not (isinstance(v, ast.Subscript) and isinstance(v.value, ast.Attribute) and v.value.attr == "indices" and _is_name(v.value.value, "molgrid")):
+            raise Unsupported(f"{name} is not molgrid.indices[...]")
+        n = v.slice
+        if _is_name(n, "i"):
+            return "i"
+        if isinstance(n, ast.BinOp) and isinstance(n.op, ast.Add) and _is_name(n.left, "i") and isinstance(n.right, ast.Constant) and isinstance(n.right.value, int):
+            return f"i + {n.right.value}"
+        raise Unsupported(f"{name} index")
+
+    P.append("/-- positions in `molgrid.indices` delimiting the slice of atom `i` (`start_index`, `final_index`). -/")
+    P.append(f"def lapSliceStart (i : Nat) : Nat := {idx('start_index')}")
+    P.append(f"def lapSliceEnd (i : Nat) : Nat := {idx('final_index')}\n")
+    ag = [st for st in loop.body if isinstance(st, ast.Assign) and _is_name(st.targets[0], "atom_grid")]
+    if len(ag) != 1 or ast.get_source_segment(src, ag[0].value) != "molgrid[i]":
+        raise Unsupported("interpolate_laplacian: atom_grid = molgrid[i]")
+    # -- the per-atom function -------------------------------------------------------------------
+    defs = [st for st in loop.body if isinstance(st, ast.FunctionDef)]
+    if len(defs) != 1 or defs[0].name != "interpolate_laplacian_atom_grid":
+        raise Unsupported("interpolate_laplacian: nested def")
+    af = defs[0]
+    params = [x.arg for x in af.args.args]
+    if params != ["points", "atom_grid", "cutoff", "start_index", "final_index"] or len(af.args.defaults) != 3:
+        raise Unsupported(f"interpolate_laplacian_atom_grid parameters {params}")
+    dcut, dstart, dfinal = af.args.defaults
+    if not (isinstance(dcut, ast.Constant) and isinstance(dcut.value, float)):
+        raise Unsupported("cutoff default")
+    P.append(f"/-- default `cutoff = {ast.get_source_segment(src, dcut)}` of `interpolate_laplacian_atom_grid`. -/")
+    P.append(f"def lapCutoffDefault : K := {_lit(ast.get_source_segment(src, dcut), dcut.value)}\n")
+    stmts = _strip_doc(af.body)
+    kinds: dict[str, tuple] = {}      # local name -> what it holds
+    comp_ops: dict[str, list[str]] = {}
+    comp_src: dict[str, list[str]] = {}
+    order_of: dict[str, int] = {}
+    einsum_of: dict[str, list[str]] = {}
+    weighted: dict[str, bool] = {}
+    ret = None
+    clamp_seen = False
+
+    def handle(st):
+        nonlocal ret, clamp_seen
+        if isinstance(st, ast.With):
+            for x in st.body:
+                handle(x)
+            return
+        seg = ast.get_source_segment(src, st)
+        if isinstance(st, ast.Assign) and len(st.targets) == 1:
+            t, v = st.targets[0], st.value
+            if _is_name(t, "radial_comps_f"):
+                if "".join(seg.split()) != "radial_comps_f=atom_grid.radial_component_splines(func_vals_atom[start_index:final_index])":
+                    raise Unsupported("radial_comps_f: " + seg)
+                kinds["radial_comps_f"] = ("splines",)
+                return
+            if isinstance(t, ast.Tuple) and [getattr(e, "id", None) for e in t.elts] == ["r_pts", "theta", "phi"]:
+                if ast.get_source_segment(src, v) != "atom_grid.convert_cartesian_to_spherical(points).T":
+                    raise Unsupported("spherical coordinates: " + seg)
+                kinds.update({"r_pts": ("r",), "theta": ("theta",), "phi": ("phi",)})
+                return
+            if isinstance(t, ast.Name) and isinstance(v, ast.Call) and _np_call(v.func) == "array" and len(v.args) == 1 and isinstance(v.args[0], ast.ListComp):
+                lc = v.args[0]
+                g = lc.generators[0]
+                if len(lc.generators) != 1 or g.ifs or not _is_name(g.target, "spline") or not _is_name(g.iter, "radial_comps_f") or "radial_comps_f" not in kinds:
+                    raise Unsupported("spline evaluation: " + seg)
+                c = lc.elt
+                if not (isinstance(c, ast.Call) and _is_name(c.func, "spline") and not c.keywords and 1 <= len(c.args) <= 2 and _is_name(c.args[0], "r_pts")):
+                    raise Unsupported("spline evaluation: " + seg)
+                if "r_pts" not in kinds or not clamp_seen:
+                    raise Unsupported("spline evaluated before the clamp of r_pts")
+                k = 0
+                if len(c.args) == 2:
+                    if not (isinstance(c.args[1], ast.Constant) and isinstance(c.args[1].value, int) and not isinstance(c.args[1].value, bool) and c.args[1].value >= 0):
+                        raise Unsupported("derivative order: " + seg)
+                    k = c.args[1].value
+                kinds[t.id] = ("values", k)
+                return
+            if _is_name(t, "r_sph_harm"):
+                if "".join(ast.get_source_segment(src, v).split()) != "generate_real_spherical_harmonics(atom_grid.l_max//2,theta,phi)":
+                    raise Unsupported("r_sph_harm: " + seg)
+                kinds["r_sph_harm"] = ("harm",)
+                return
+            if _is_name(t, "degrees"):
+                if not (isinstance(v, ast.Call) and _np_call(v.func) == "hstack" and len(v.args) == 1 and isinstance(v.args[0], ast.ListComp)):
+                    raise Unsupported("degrees: " + seg)
+                lc = v.args[0]
+                g = lc.generators[0]
+                if len(lc.generators) != 1 or g.ifs or not isinstance(g.target, ast.Name) or not (isinstance(g.iter, ast.Call) and _np_call(g.iter.func) == "arange" and len(g.iter.args) == 2):
+                    raise Unsupported("degrees comprehension: " + seg)
+                x = g.target.id
+                e = lc.elt       # [value] * count
+                if not (isinstance(e, ast.BinOp) and isinstance(e.op, ast.Mult) and isinstance(e.left, ast.List) and len(e.left.elts) == 1):
+                    raise Unsupported("degrees element: " + seg)
+                lo_, hi_ = _iexpr(g.iter.args[0], {}, "atom_grid"), _iexpr(g.iter.args[1], {}, "atom_grid")
+                val = _iexpr(e.left.elts[0], {x: x}, "atom_grid")
+                cnt = _iexpr(e.right, {x: x}, "atom_grid")
+                kinds["degrees"] = ("degrees", lo_, hi_, x, val, cnt, seg)
+                return
+            if isinstance(t, ast.Name) and isinstance(v, ast.Call) and _np_call(v.func) == "einsum":
+                if v.keywords or not isinstance(v.args[0], ast.Constant) or not isinstance(v.args[0].value, str):
+                    raise Unsupported("einsum: " + seg)
+                spec = _norm_einsum(v.args[0].value)
+                ops_ = v.args[1:]
+                if not all(isinstance(o, ast.Name) and o.id in kinds for o in ops_):
+                    raise Unsupported("einsum operands: " + seg)
+                ks = [kinds[o.id][0] for o in ops_]
+                if spec == "ln,ln->n" and ks == ["values", "harm"]:
+                    weighted[t.id] = False
+                elif spec == "ln,l,ln->n" and ks == ["values", "degrees", "harm"]:
+                    weighted[t.id] = True
+                else:
+                    raise Unsupported(f"einsum {spec} over {ks}: " + seg)
+                order_of[t.id] = kinds[ops_[0].id][1]
+                einsum_of[t.id] = _call_args(v, src)
+                kinds[t.id] = ("component",)
+                comp_ops[t.id] = []
+                comp_src[t.id] = [seg]
+                return
+            if isinstance(t, ast.Subscript):
+                raise Unsupported("masked assignment outside the clamp: " + seg)
+        if isinstance(st, ast.If):
+            # if np.any(r_pts < cutoff): r_pts[r_pts < cutoff] = cutoff
+            if clamp_seen or st.orelse or len(st.body) != 1 or "r_pts" not in kinds:
+                raise Unsupported("clamp: " + seg)
+            tst, asg = st.test, st.body[0]
+            if not (isinstance(tst, ast.Call) and _np_call(tst.func) == "any" and len(tst.args) == 1 and isinstance(asg, ast.Assign)
+                    and isinstance(asg.targets[0], ast.Subscript) and _is_name(asg.targets[0].value, "r_pts")):
+                raise Unsupported("clamp: " + seg)
+            if ast.dump(tst.args[0]) != ast.dump(asg.targets[0].slice):
+                raise Unsupported("clamp: the np.any test and the mask differ: " + seg)
+            ex = Ex(src, {"r_pts": "r_pts", "cutoff": "cutoff"})
+            P.append(f"/-- `{' '.join(seg.split())}`, per point. -/")
+            P.append(f"def lapClamp (r_pts cutoff : K) : K := if {ex.cond(asg.targets[0].slice)} then {ex.e(asg.value)} else r_pts\n")
+            clamp_seen = True
+            return
+        if isinstance(st, ast.AugAssign) and isinstance(st.target, ast.Name) and kinds.get(st.target.id, ("",))[0] == "component":
+            op = {ast.Mult: "*", ast.Div: "/", ast.Add: "+", ast.Sub: "-"}.get(type(st.op))
+            if op is None:
+                raise Unsupported("component update: " + seg)
+            ex = Ex(src, {"r_pts": "r_pts"})
+            comp_ops[st.target.id].append(f"(c {op} {ex.e(st.value)})")
+            comp_src[st.target.id].append(seg)
+            return
+        if isinstance(st, ast.Return):
+            ret = st
+            return
+        raise Unsupported("interpolate_laplacian_atom_grid: statement " + ast.dump(st)[:160])
+
+    for st in stmts:
+        if ret is not None:
+            raise Unsupported("statement after return")
+        handle(st)
+    if ret is None or not clamp_seen:
+        raise Unsupported("interpolate_laplacian_atom_grid: no return / no clamp")
+    comps = sorted(comp_ops, key=lambda k: list(kinds).index(k))
+    if comps != ["first_component", "second_component", "third_component"] or "degrees" not in kinds:
+        raise Unsupported(f"components {comps}")
+    lean_name = {"first_component": "lapFirst", "second_component": "lapSecond", "third_component": "lapThird"}
+    for cname in comps:
+        L = lean_name[cname]
+        P.append(f"/-- `{'`; `'.join(' '.join(x.split()) for x in comp_src[cname])}`:")
+        P.append(f"derivative order the contracted spline values ask for, whether `degrees` enters the contraction, the contraction as written,")
+        P.append(f"and what is done to the contracted value `c` afterwards (`r_pts` = the clamped radius of the point). -/")
+        P.append(f"def {L}Order : Nat := {order_of[cname]}")
+        P.append(f"def {L}Weighted : Bool := {'true' if weighted[cname] else 'false'}")
+        P.append(f"def {L}Einsum : List String := {_strs(einsum_of[cname])}")
+        P.append(f"def {L} (c r_pts : K) : K :=")
+        for o in comp_ops[cname]:
+            P.append(f"  let c : K := {o}")
+        P.append("  c\n")
+    _, lo_, hi_, x, val, cnt, seg = kinds["degrees"]
+    P.append(f"/-- `{' '.join(seg.split())}`. -/")
+    P.append(f"def lapDegrees (l_max : Nat) : List Int := (intRange {lo_} {hi_}).flatMap fun {x} => List.replicate ({cnt}).toNat {val}\n")
+    exr = Ex(src, {c: c for c in comps})
+    P.append(f"/-- `{ast.get_source_segment(src, ret)}`. -/")
+    P.append(f"def lapReturn (first_component second_component third_component : K) : K := {exr.e(ret.value)}\n")
+    # -- the list of per-atom callables and Python's closure rules --------------------------------
+    apps = [st for st in loop.body if isinstance(st, ast.Expr) and isinstance(st.value, ast.Call) and isinstance(st.value.func, ast.Attribute)
+            and st.value.func.attr == "append" and _is_name(st.value.func.value, "interpolate_funcs")]
+    if len(apps) != 1 or len(apps[0].value.args) != 1 or not isinstance(apps[0].value.args[0], ast.Lambda):
+        raise Unsupported("interpolate_funcs.append(lambda ...)")
+    lam = apps[0].value.args[0]
+    lparams = [x.arg for x in lam.args.args]
+    ndef = len(lam.args.defaults)
+    positional, defaulted = lparams[:len(lparams) - ndef], lparams[len(lparams) - ndef:]
+    fn_alias = None        # a default argument that binds the per-atom function at definition time (`fn=interpolate_laplacian_atom_grid`)
+    for nm, d in zip(defaulted, lam.args.defaults):
+        if _is_name(d, nm):
+            continue
+        if _is_name(d, "interpolate_laplacian_atom_grid") and fn_alias is None:
+            fn_alias = nm
+            continue
+        raise Unsupported(f"lambda default {nm}=...")
+    c = lam.body
+    if not (isinstance(c, ast.Call) and (_is_name(c.func, "interpolate_laplacian_atom_grid") or (fn_alias is not None and _is_name(c.func, fn_alias)))
+            and not c.keywords and len(c.args) == 3 and len(positional) == 2
+            and _is_name(c.args[0], positional[0]) and _is_name(c.args[1], "atom_grid") and _is_name(c.args[2], positional[1])):
+        raise Unsupported("lambda body: " + ast.get_source_segment(src, lam))
+    if fn_alias is not None and _is_name(c.func, "interpolate_laplacian_atom_grid"):
+        fn_alias = None    # the alias exists but the call still goes through the free name
+    loop_assigned = {"i", af.name} | {st.targets[0].id for st in loop.body if isinstance(st, ast.Assign) and isinstance(st.targets[0], ast.Name)}
+    lam_late = _free_names(lam.body, set(lparams)) & loop_assigned            # looked up when the lambda is *called*: last iteration
+    def_bound = set(params)
+    def_late = _free_names(ast.Module(body=af.body, type_ignores=[]), def_bound) & loop_assigned
+    for nm, d in zip(params[-3:], af.args.defaults):
+        if nm in ("start_index", "final_index") and not _is_name(d, nm):
+            raise Unsupported(f"default of {nm}")
+    fn_late = af.name in lam_late
+    slice_late = fn_late or bool({"start_index", "final_index"} & def_late)
+    grid_late = "atom_grid" in lam_late
+    P.append(f"/-- `{' '.join(ast.get_source_segment(src, apps[0]).split())}`.")
+    P.append("Python looks a free name of a lambda / nested def up when it is *called*; the names bound at definition time are the")
+    P.append(f"default arguments. Free loop-assigned names of the lambda: {sorted(lam_late)}; of the nested def: {sorted(def_late)}.")
+    P.append("`lapSliceOwner i n`: the loop iteration whose `start_index:final_index` the term of atom `i` uses when the returned")
+    P.append("callable is evaluated after a loop over `n` atoms; `lapGridOwner i n`: the iteration whose `atom_grid` it uses. -/")
+    P.append(f"def lapSliceOwner (i n : Nat) : Nat := {'n - 1' if slice_late else 'i'}")
+    P.append(f"def lapGridOwner (i n : Nat) : Nat := {'n - 1' if grid_late else 'i'}\n")
+    # -- the sum -------------------------------------------------------------------------------------
+    sm = _nested_fn(fn, "sum_of_interpolation_funcs")
+    sp = [x.arg for x in sm.args.args]
+    if sp != ["points", "cut_off"] or len(sm.args.defaults) != 1 or not isinstance(sm.args.defaults[0], ast.Constant) or not isinstance(sm.args.defaults[0].value, float):
+        raise Unsupported("sum_of_interpolation_funcs parameters")
+    d = sm.args.defaults[0]
+    P.append(f"/-- default `cut_off = {ast.get_source_segment(src, d)}` of the returned callable. -/")
+    P.append(f"def lapCutOffDefault : K := {_lit(ast.get_source_segment(src, d), d.value)}\n")
+    b = _strip_doc(sm.body)
+    ok = (len(b) == 3 and isinstance(b[0], ast.Assign) and _is_name(b[0].targets[0], "output")
+          and ast.get_source_segment(src, b[0].value) == "interpolate_funcs[0](points, cut_off)"
+          and isinstance(b[1], ast.For) and _is_name(b[1].target, "interpolate") and ast.get_source_segment(src, b[1].iter) == "interpolate_funcs[1:]"
+          and len(b[1].body) == 1 and isinstance(b[1].body[0], ast.AugAssign) and isinstance(b[1].body[0].op, ast.Add)
+          and _is_name(b[1].body[0].target, "output") and not b[1].orelse and isinstance(b[2], ast.Return) and _is_name(b[2].value, "output"))
+    if not ok:
+        raise Unsupported("sum_of_interpolation_funcs shape")
+    step = b[1].body[0]
+
+    def atom2(n):
+        if isinstance(n, ast.Call) and _is_name(n.func, "interpolate") and [ast.get_source_segment(src, x) for x in n.args] == ["points", "cut_off"] and not n.keywords:
+            return "v"
+        return None
+
+    P.append("/-- `output = interpolate_funcs[0](points, cut_off)`; `for …[1:]: output += interpolate(points, cut_off)`: one step of the sum. -/")
+    P.append(f"def lapSumStep (output v : K) : K := (output + {Ex(src, {}, atom2).e(step.value)})\n")
+    rets = [st for st in body if isinstance(st, ast.Return)]
+    if len(rets) != 1 or not _is_name(rets[0].value, "sum_of_interpolation_funcs"):
+        raise Unsupported("interpolate_laplacian return")
+    return P
+
+
 def translate(poisson_src: str, robust_src: str) -> str:
     t1, t2 = ast.parse(poisson_src), ast.parse(robust_src)
     parts = ["/-! ### `_solve_poisson_bvp_atomgrid` -/\n"] + _bvp(t1, poisson_src)
     parts += ["/-! ### `_solve_poisson_ivp_atomgrid` -/\n"] + _ivp(t1, poisson_src)
     parts += ["/-! ### `_interpolate_molgrid_helper` -/\n"] + _mol(t1, poisson_src)
+    parts += ["/-! ### `interpolate_laplacian` -/\n"] + _lap(t1, poisson_src)
     parts += ["/-! ### `robust_poisson` -/\n"] + _robust(t2, robust_src)
     return "\n".join(parts)
 
@@ -783,3 +1099,9 @@ def text() -> str:
 
 def generate():
     return write_if_changed("Poisson.lean", text())
+
+
+if __name__ == "__main__":
+    changed, diff = generate()
+    print("changed" if changed else "unchanged")
+    print(diff)
